@@ -11,15 +11,19 @@
 (*   agg                 -> C21   aggregates                               *)
 (*   err                 -> C22   runtime errors are not swallowed         *)
 (*   part                -> C19   WHERE partitions rows                    *)
+(*   read                -> C11   read queries against the reference       *)
 (***************************************************************************)
-EXTENDS CypherVal, Json, IOUtils, SequencesExt, FiniteSetsExt
+EXTENDS CypherSem, Json, IOUtils
 
 Rec == ndJsonDeserialize(IOEnv.TRACE)
 
-VARIABLES l, ovf   \* next line; overflow class first observed in this session ("" = none yet)
-vars == <<l, ovf>>
+VARIABLES l,    \* next line of the trace
+          ovf,  \* overflow class first observed in this session ("" = none yet)
+          gr    \* graph of the current session as dumped through the storage read API
+vars == <<l, ovf, gr>>
 
-Init == l = 1 /\ ovf = ""
+NoGraph == [nodes |-> <<>>, rels |-> <<>>]
+Init == l = 1 /\ ovf = "" /\ gr = NoGraph
 
 Emit(f) == PrintT(<<"FINDING", ToJson(f)>>)
 Finding(prop, kind, detail) ==
@@ -64,8 +68,8 @@ TTruth3 ==
               pairs == {<<Rows[i][1], Rows[i][2]>> : i \in 1..NRows}
           IN /\ (Len(bad) = 0 \/ Emit(Finding("C23", "truth-table",
                     [row |-> Rows[bad[1]], law |-> Truth3Bad(Rows[bad[1]])])))
-             /\ (NRows = 9 /\ Cardinality(pairs) = 9 \/ Emit(Finding("C23", "truth-table-rows", NRows)))
-  /\ l' = l + 1 /\ UNCHANGED ovf
+             /\ ((NRows = 9 /\ Cardinality(pairs) = 9) \/ Emit(Finding("C23", "truth-table-rows", NRows)))
+  /\ l' = l + 1 /\ UNCHANGED <<ovf, gr>>
 
 (***************************************************************************)
 (* cmp: the full comparison table of a list of values.                     *)
@@ -132,7 +136,7 @@ TCmp ==
   /\ IF ~IsRows THEN Emit(Finding("C23", "query-failed", Res.err))
      ELSE IF NRows # CmpN * CmpN THEN Emit(Finding("C23", "cmp-table-rows", NRows))
      ELSE Report(CmpLaws)
-  /\ l' = l + 1 /\ UNCHANGED ovf
+  /\ l' = l + 1 /\ UNCHANGED <<ovf, gr>>
 
 (***************************************************************************)
 (* arith: one integer operator applied to a list of operand pairs.         *)
@@ -160,7 +164,7 @@ TArith ==
           /\ ovf' = IF over # {} /\ ovf = "" THEN "error" ELSE ovf
           /\ (over = {} \/ ovf \in {"", "error"} \/
               Emit(Finding("C23", "overflow-rule-differs", [op |-> Meta.op, here |-> "error", first |-> ovf])))
-        ELSE IF NRows # n THEN Emit(Finding("C23", "arith-rows", NRows)) /\ UNCHANGED ovf
+        ELSE IF NRows # n THEN Emit(Finding("C23", "arith-rows", NRows)) /\ UNCHANGED <<ovf, gr>>
         ELSE
           LET nullbad == {j \in 0..(n - 1) : ArHasNull(j) /\ ~IsNull(ArRowOf(j)[2])}
               inbad   == {j \in 0..(n - 1) : ~ArHasNull(j) /\ InI64(ArExact(j))
@@ -183,7 +187,7 @@ TArith ==
                  Emit(Finding("C23", "overflow-rule-differs",
                               [op |-> Meta.op, here |-> SetToSeq(differ), first |-> first])))
              /\ ovf' = first
-  /\ l' = l + 1
+  /\ l' = l + 1 /\ UNCHANGED gr
 
 (***************************************************************************)
 (* order: ORDER BY over composite keys with directions, SKIP and LIMIT.    *)
@@ -225,12 +229,12 @@ TOrder ==
                    Emit(Finding("C20", "not-sorted", [first |-> Rows[i], second |-> Rows[i + 1], dirs |-> OrdDirs])))
                /\ (unsorted # {} \/ foreign # {} \/ misplaced = {} \/
                    Emit(Finding("C20", "wrong-slice", [pos |-> CHOOSE p \in misplaced : TRUE, skip |-> s])))
-  /\ l' = l + 1 /\ UNCHANGED ovf
+  /\ l' = l + 1 /\ UNCHANGED <<ovf, gr>>
 
 (***************************************************************************)
 (* agg: grouping and aggregates.  parameter 1 = list of [key, value].      *)
 (* columns: k c cv s mn mx col av cd sd cold                               *)
-(*   count(*) count(v) sum(v) min(v) max(v) collect(v) avg(v)              *)
+(*   count-star count(v) sum(v) min(v) max(v) collect(v) avg(v)             *)
 (*   count(DISTINCT v) sum(DISTINCT v) collect(DISTINCT v)                 *)
 (***************************************************************************)
 AggIn == Param(1)[2]
@@ -291,11 +295,11 @@ TAgg ==
        LET keys == {AggK(i) : i \in 1..Len(AggIn)}
            dupRows == {p \in 1..NRows : \E q \in 1..NRows : q # p /\ Rows[q][1] = Rows[p][1]}
            bad == SelectIdx(NRows, LAMBDA p : AggRowBad(Rows[p]) # "")
-       IN /\ (NRows = Cardinality(keys) /\ dupRows = {} \/
+       IN /\ ((NRows = Cardinality(keys) /\ dupRows = {}) \/
               Emit(Finding("C21", "one-row-per-key", [rows |-> NRows, keys |-> Cardinality(keys)])))
           /\ (Len(bad) = 0 \/ Emit(Finding("C21", "aggregate-" \o AggRowBad(Rows[bad[1]]),
                                   [row |-> Rows[bad[1]]])))
-  /\ l' = l + 1 /\ UNCHANGED ovf
+  /\ l' = l + 1 /\ UNCHANGED <<ovf, gr>>
 
 (***************************************************************************)
 (* err: one row of the input raises a runtime error; the rule says whether *)
@@ -312,7 +316,7 @@ TErr ==
   /\ (~Consumes(Meta) \/ Res.out = "err" \/
       Emit(Finding("C22", "error-swallowed", [op |-> Meta.op, pos |-> Meta.pos, fail |-> Meta.fail,
                                               rows |-> NRows, query |-> Rec[l].query])))
-  /\ l' = l + 1 /\ UNCHANGED ovf
+  /\ l' = l + 1 /\ UNCHANGED <<ovf, gr>>
 
 (***************************************************************************)
 (* part: rows(no filter) = rows(p) (+) rows(NOT p) (+) rows(p IS NULL)     *)
@@ -338,18 +342,57 @@ TPart ==
                                  THEN "row-lost" ELSE "row-duplicated",
                           [row |-> x, all |-> CountIn(all, x), t |-> CountIn(a, x), f |-> CountIn(b, x),
                            n |-> CountIn(c, x), query |-> Rec[l].query]))
-  /\ l' = l + 1 /\ UNCHANGED ovf
+  /\ l' = l + 1 /\ UNCHANGED <<ovf, gr>>
 
 (***************************************************************************)
+(***************************************************************************)
+(* read (C11): the rows of a generated read query against the reference    *)
+(* evaluator CypherSem on the session's graph.  meta.ast = the query.      *)
+(***************************************************************************)
+ReadKeyCmp(t1, t2, order) == KeyCmp(OrderKeys(t1, order), OrderKeys(t2, order), OrderDirs(order), 1)
+TRead ==
+  /\ IsCase("read")
+  /\ LET q == Meta.ast
+         E == ResultBag(gr, q)
+         ret == q.ret
+         O == Rows
+         s == IF ret.skip < 0 THEN 0 ELSE ret.skip
+         rest == IF Len(E) > s THEN Len(E) - s ELSE 0
+         want == IF ret.limit < 0 \/ ret.limit > rest THEN rest ELSE ret.limit
+         sliced == ret.skip > 0 \/ (ret.limit >= 0 /\ ret.limit < Len(E))
+         foreign == {p \in 1..Len(O) : CountSame(O, O[p]) > CountSame(E, O[p])}
+         missing == {p \in 1..Len(E) : CountSame(O, E[p]) < CountSame(E, E[p])}
+         unsorted == {p \in 1..(Len(O) - 1) : ReadKeyCmp(O[p], O[p + 1], ret.order) > 0}
+         before(t, strict) == Cardinality({i \in 1..Len(E) :
+                                 LET c == ReadKeyCmp(E[i], t, ret.order) IN IF strict THEN c < 0 ELSE c <= 0})
+         misplaced == {p \in 1..Len(O) : ~(before(O[p], TRUE) < s + p /\ s + p <= before(O[p], FALSE))}
+         show(t) == [i \in 1..Len(t) |-> IF t[i][1] = "rel" THEN <<"rel", t[i][2]>> ELSE t[i]]
+     IN IF ~IsRows THEN Emit(Finding("C11", "query-failed", [err |-> Res.err, query |-> Rec[l].query]))
+        ELSE IF Len(O) # want THEN
+               Emit(Finding("C11", "row-count", [got |-> Len(O), want |-> want, query |-> Rec[l].query]))
+        ELSE IF foreign # {} THEN
+               Emit(Finding("C11", "row-not-in-reference",
+                            [row |-> O[CHOOSE p \in foreign : TRUE], query |-> Rec[l].query]))
+        ELSE IF ~sliced /\ missing # {} THEN
+               Emit(Finding("C11", "row-missing",
+                            [row |-> show(E[CHOOSE p \in missing : TRUE]), query |-> Rec[l].query]))
+        ELSE IF Len(ret.order) > 0 /\ unsorted # {} THEN
+               Emit(Finding("C11", "not-sorted", [pos |-> CHOOSE p \in unsorted : TRUE, query |-> Rec[l].query]))
+        ELSE IF Len(ret.order) > 0 /\ misplaced # {} THEN
+               Emit(Finding("C11", "wrong-slice", [pos |-> CHOOSE p \in misplaced : TRUE, query |-> Rec[l].query]))
+        ELSE TRUE
+  /\ l' = l + 1 /\ UNCHANGED <<ovf, gr>>
+
 TSession ==
   /\ l <= Len(Rec) /\ Rec[l].ev = "session"
+  /\ gr' = IF "graph" \in DOMAIN Rec[l] THEN Rec[l].graph ELSE NoGraph
   /\ l' = l + 1 /\ ovf' = ""
 TOtherCase ==
   /\ l <= Len(Rec) /\ Rec[l].ev = "case"
-  /\ Rec[l].kind \notin {"truth3", "cmp", "arith", "order", "agg", "err", "part"}
-  /\ l' = l + 1 /\ UNCHANGED ovf
+  /\ Rec[l].kind \notin {"truth3", "cmp", "arith", "order", "agg", "err", "part", "read"}
+  /\ l' = l + 1 /\ UNCHANGED <<ovf, gr>>
 
-Next == TSession \/ TTruth3 \/ TCmp \/ TArith \/ TOrder \/ TAgg \/ TErr \/ TPart \/ TOtherCase
+Next == TSession \/ TRead \/ TTruth3 \/ TCmp \/ TArith \/ TOrder \/ TAgg \/ TErr \/ TPart \/ TOtherCase
 Spec == Init /\ [][Next]_vars
 
 TraceAccepted ==
